@@ -104,9 +104,11 @@ impl Case {
         b.body(Body::empty()).unwrap()
     }
     fn default_port(&self) -> u16 {
-        match self.scheme {
-            "https" | "wss" => 443,
-            _ => 80,
+        // schemes are case-insensitive
+        if self.scheme.eq_ignore_ascii_case("https") || self.scheme.eq_ignore_ascii_case("wss") {
+            443
+        } else {
+            80
         }
     }
     /// Reference: the Host value an HTTP/1 connection must carry.
@@ -134,7 +136,7 @@ impl Case {
 
 pub fn grammar() -> Vec<Case> {
     let mut v = vec![];
-    for scheme in ["http", "https", "ws", "wss"] {
+    for scheme in ["http", "https", "ws", "wss", "WSS", "HTTPS"] {
         for host in ["example.com", "127.0.0.1", "[::1]", "EXAMPLE.com", "user:pw@example.com", "u@[::1]"] {
             for port in [None, Some(80u16), Some(443), Some(8080)] {
                 for path in ["", "/", "/a/b", "/a%20b", "//x"] {
